@@ -101,8 +101,12 @@ var constructs = []construct{
 	{"guarded-defer", func(k string) string { return fmt.Sprintf("defer tr(\"D\", 0) if %s\ntr(\"B\", 22)", k) }, "B\nD\n", "22", "B\n", "22"},
 	// the guard is looked at where the statement stands: once, with the value it has there
 	{"guarded-defer-traced-guard", func(k string) string { return fmt.Sprintf("defer tr(\"D\", 0) if tr(\"G\", %s)\ntr(\"B\", 22)", k) }, "G\nB\nD\n", "22", "G\nB\n", "22"},
-	{"guarded-defer-guard-variable-cleared-later", func(k string) string { return fmt.Sprintf("gv := %s\ndefer tr(\"D\", 0) if gv\ngv := nil\ntr(\"B\", 22)", k) }, "B\nD\n", "22", "B\n", "22"},
-	{"guarded-defer-guard-variable-set-later", func(k string) string { return fmt.Sprintf("gv := %s\ndefer tr(\"D\", 0) if gv\ngv := 1\ntr(\"B\", 22)", k) }, "B\nD\n", "22", "B\n", "22"},
+	{"guarded-defer-guard-variable-cleared-later", func(k string) string {
+		return fmt.Sprintf("gv := %s\ndefer tr(\"D\", 0) if gv\ngv := nil\ntr(\"B\", 22)", k)
+	}, "B\nD\n", "22", "B\n", "22"},
+	{"guarded-defer-guard-variable-set-later", func(k string) string {
+		return fmt.Sprintf("gv := %s\ndefer tr(\"D\", 0) if gv\ngv := 1\ntr(\"B\", 22)", k)
+	}, "B\nD\n", "22", "B\n", "22"},
 	{"guarded-return-traced-guard", func(k string) string { return fmt.Sprintf("return tr(\"T\", 11) if tr(\"G\", %s)\ntr(\"F\", 22)", k) }, "G\nT\n", "11", "G\nF\n", "22"},
 	{"not", func(k string) string { return "!" + k }, "", "false", "", "true"},
 	{"not-not", func(k string) string { return "!!" + k }, "", "true", "", "false"},
